@@ -113,3 +113,43 @@ def reach_target(fb, body, known, pred, depth=0, seen=None, trail=()):
         if r:
             return r
     return None
+
+
+def contexts(fb, body, known, target, depth=0, seen=None):
+    """the constant-argument contexts ({('arg', n): bool}) with which `target` (a def path) is called on live paths from the entry of `body`,
+    following same-crate calls and closures like reach_target does"""
+    if seen is None:
+        seen = set()
+    key = (body.name, tuple(sorted(known.items())))
+    if key in seen or depth > 8:
+        return []
+    seen.add(key)
+    out = []
+    live = live_under(body, known)
+    for (i, j, st, cdef) in body.closures_created():
+        child = fb.bodies.get(cdef)
+        if i not in live or child is None:
+            continue
+        k2 = {}
+        for idx, op in enumerate(st['rv'].get('ops', [])):
+            v = _value_of_op(body, op, known)
+            if v is not None:
+                k2[('up', idx)] = v
+        out += contexts(fb, child, k2, target, depth + 1, seen)
+    for s in body.sites:
+        if s.bb not in live or not s.callee:
+            continue
+        name = s.resolved or s.callee
+        callee = fb.bodies.get(name)
+        if callee is None or callee.parent:
+            continue
+        k2 = {}
+        for idx, op in enumerate(s.args):
+            v = _value_of_op(body, op, known)
+            if v is not None:
+                k2[('arg', idx + 1)] = v
+        if name == target:
+            out.append((body, s, k2))
+        else:
+            out += contexts(fb, callee, k2, target, depth + 1, seen)
+    return out
